@@ -28,6 +28,8 @@ import TboxModel.C17.NotStuck
 import TboxModel.C17.LateProofs
 import TboxModel.C17.Tmo
 import TboxModel.C17.SimBatch
+import TboxModel.C17.TmoCtlProofs
+import TboxModel.C17.ParChild3
 namespace Tbox.C17
 
 /-! ## Layer 1 — one action, every call sequence
@@ -781,6 +783,133 @@ example : eval seqOverPar = some (true, 2) ∧ visit seqOverPar = [2, 3, 5] ∧
 --   `id ∉ snapshot`; (3) `DoneAs` at the end of the step in which the parallel node finished (`hdel` of `step_PI`: every leaf task of the
 --   snapshot has been delivered; leaves stopped by `stopAll` have no timer) — then `Good (par over leaves)` follows from `run_PI`, and
 --   `both_size` takes `.par` as one more kind.  Not closed this round (the round went into three new defects of the real code).
+--   Round 11: CLOSED as new definitions beside the old ones (ParChild*.lean): (2) `par_leaves_batchOk` (`BX.own`: N0 ≤ id), (3)
+--   `par_leaves_doneAs` / `step_PI_done`, (1) `APB` / `RunOkB` / `GoodB` / `OnWayB` with `goodB_of_good`, `goodB_par_leaves`,
+--   `good_seqB` / `good_wrapperB` / `good_compositeB`, hence `C17_result_matches_doc_{seq,wrapper,composite}_over_par_leaves` (nestable
+--   through these three kinds).  Still open of stage (i): the `B` copies of IfElse / IfThen / Switch / Loop / LoopIf / Repeat
+--   (`good_twophase`, Loops.lean: the same substitution), `both_size` with `.par` (so that `SerOk` itself admits the node at any
+--   depth), and `Live` / `gen_live` over `GoodB` (liveness of parents over a Parallel child).  Stage (ii) (composite children) untouched.
+
+/-! ## Round 11 — the timeout timer in EVERY lifecycle state (reset of a BLOCKED action), timeout changes at any pass,
+ParallelAction over leaves as a CHILD of Sequence / Wrapper / Composite -/
+
+/-- **a blocked action keeps its timeout**: `block()` (the action's own, or the block notification of a child) puts an action that is
+under way into Pause and leaves the timeout timer exactly as it was — armed with the deadline of the run, unlike `pause()`.
+So Pause is a state with a live timer, and every call that ends or resets the run must disarm it in that state too. -/
+theorem C17_block_keeps_timeout (d : Node) (g : G) (w : Nat) (hu : d.underway = true) :
+    (block d g w).1.st = .pause ∧ (block d g w).1.tmoAt = d.tmoAt :=
+  ⟨block_st d g w hu, block_tmoAt d g w⟩
+
+/-- pause(), stop() and reset() disarm the timers of the action in EVERY state and configuration (no `isRunning()` guard) -/
+theorem C17_pause_stop_reset_disarm (cfg : Cfg) (d : Node) (now : Nat) :
+    (d.paused now).tmoAt = none ∧ (d.stopped cfg).tmoAt = none ∧ (d.stopped cfg).sleepAt = none ∧
+    (d.resetted cfg).tmoAt = none ∧ (d.resetted cfg).sleepAt = none :=
+  ⟨rfl, (stopped_tmoAt cfg d).1, (stopped_tmoAt cfg d).2, (resetted_tmoAt cfg d).1, (resetted_tmoAt cfg d).2⟩
+
+/-- **after reset() no timer of the tree is armed** — in every reachable state (Running, paused, BLOCKED with its timeout still live,
+ended, with queued notifications), for every tree and history: no timeout timer and no sleep timer of any action survives. -/
+theorem C17_reset_disarms_every_timer (t : T) (ops : List Op) (hc : Clean t = true) (hl : LeafShape t = true) :
+    allTimers (reset (run t {} ops).1 (run t {} ops).2).1 [] = [] :=
+  reset_no_timers _ _ (reachable_wf t ops hc hl).1 (reachable_wf t ops hc hl).2
+
+/-- … so the next run arms its timeout from ITS start: a freshly built or reset action started at `now` is Running with the
+deadline `now + timeout` (none without a timeout) -/
+theorem C17_restart_deadline (d : Node) (now : Nat) (hc : cleanNode d = true) :
+    (d.started now).st = .running ∧ (d.started now).tmoAt = d.tmo.map (now + ·) :=
+  started_deadline d now hc
+
+/-- why the disarming matters (`timer_ev_->enable()` is a no-op on an armed one-shot timer): an Idle action whose timer were
+still armed with the old deadline 202 would, started at 120 with a timeout of 202 ms, run with the deadline 202 instead of 322 -/
+theorem C17_stale_timer_survives_start_counterexample :
+    (({ id := 0, kind := .ifThen, tmo := some 202, tmoAt := some 202 } : Node).started 120).tmoAt = some 202 ∧
+    (({ id := 0, kind := .ifThen, tmo := some 202 } : Node).started 120).tmoAt = some 322 := by decide
+
+/-- IfThen(timeout 202 ms)[ if: Dummy, then: Function(succ) ] — the tree of the missed seeded change C17-6 -/
+def blkTmoTree : T := comp 0 .ifThen [leaf 1 .dummy, leaf 2 (.func true none)] (some 202)
+def blkTmoHist : List Op := [.calls [.start], .calls [.emitBlk 1], .pass, .adv 100]
+def blkTmoS : List Op := [.adv 100, .pass, .adv 50, .calls [.emitFin 1 true], .pass, .pass]
+
+/-- the history on the model (kernel-evaluated; replayed on the real code by corpus 27 and the generator family
+`gen_tmo_block_restart`): the leaf blocks, the root is Pause with its timeout still armed (deadline 202); reset() + start() at
+100 ms: the new run has the deadline 302, is still Running at 200 ms and 250 ms (the old deadline has passed), the leaf then
+succeeds and the root finishes exactly once with success — the end state and the notifications of the run of the freshly built
+tree under the same script -/
+theorem C17_reset_of_blocked_action_restart :
+    (run blkTmoTree {} blkTmoHist).1.data.st = .pause ∧ (run blkTmoTree {} blkTmoHist).1.data.tmoAt = some 202 ∧
+    (run blkTmoTree {} (blkTmoHist ++ [.calls [.reset, .start]])).1.data.tmoAt = some 302 ∧
+    TimersFrom 100 (run blkTmoTree {} (blkTmoHist ++ [.calls [.reset, .start]])).1 = true ∧
+    rootSt (run blkTmoTree {} (blkTmoHist ++ [.calls [.reset, .start], .adv 100, .pass, .adv 50])) = .running ∧
+    rootFins (run blkTmoTree {} (blkTmoHist ++ [.calls [.reset, .start]] ++ blkTmoS)) = [(true, .finished)] ∧
+    rootFins (run blkTmoTree {} (.calls [.start] :: blkTmoS)) = [(true, .finished)] ∧
+    (run blkTmoTree {} (blkTmoHist ++ [.calls [.reset, .start]] ++ blkTmoS)).1.data.res =
+      (run blkTmoTree {} (.calls [.start] :: blkTmoS)).1.data.res := by decide +kernel
+
+/-- **`setTimeout` with the SAME value while Running is not a no-op**: the deadline moves to `now + ms`, whatever was armed -/
+theorem C17_set_timeout_same_value_moves_deadline (d : Node) (now ms : Nat) (hr : d.st = .running) :
+    (d.setTimeout now ms).tmoAt = some (now + ms) ∧ (d.setTimeout now ms).st = .running := by
+  simp [Node.setTimeout, hr]
+
+/-- … while Pause (paused or blocked) it disarms the timer until the next resume(), which arms the full interval; in the other
+states it only stores the interval -/
+theorem C17_set_timeout_not_running (d : Node) (now ms : Nat) (hr : d.st ≠ .running) :
+    (d.setTimeout now ms).tmoAt = none ∧ (armTmo (d.setTimeout now ms) (now + 7)).tmoAt = some (now + 7 + ms) := by
+  have : (d.st == St.running) = false := by simpa using hr
+  simp [Node.setTimeout, armTmo, this]
+
+-- OPEN C17_set_timeout_keeps_inv (full): for every op sequence with `setTimeout` / `resetTimeout` on ANY action at ANY pass the tree
+--   invariant holds.  Proved below with the decidable guard `runTOk` (the target is the root, or it is not Idle): the parent-side
+--   relation `R` of InvProofs.lean says "a clean subtree is UNTOUCHED" (`Clean t → t' = t`), and a changed `tmo` of an Idle inner
+--   action touches it (harmlessly: `Clean` does not read `tmo`); needed: `R` with `Clean t → Clean t'` and `lift` re-proved.
+theorem C17_set_timeout_keeps_inv_partial (t : T) (ops : List OpT) (hc : Clean t = true) (hl : LeafShape t = true)
+    (hok : runTOk t {} ops = true) : WF (runT t {} ops).1 = true :=
+  (runT_wf_partial ops t {} (wf_of_clean t hc hl) GI_init hok).1
+
+example : runTOk blkTmoTree {} [.base (.op (.calls [.start])), .setTmo 0 (some 202), .setTmo 1 (some 50), .base (.op (.adv 100)), .setTmo 0 none,
+    .base (.late 300 [.pause])] = true := by decide +kernel
+
+/-- **ParallelAction over Function / Sleep leaves as a CHILD** (stage (i) of M3, ParChild*.lean): a Sequence (any mode) whose
+children are — at any positions, in any number — trees of the serial class or ParallelActions (any mode, any number of children)
+over Function / Sleep(≥ 1 ms) leaves: for EVERY pass / clock schedule the observable trace is a prefix of the documented visit
+order, or the complete visit order followed by exactly one finish notification carrying the documented result. -/
+theorem C17_result_matches_doc_seq_over_par_leaves (ds : Node) (cs : TL) (m : Mode3) (hk : ds.kind = .seq m) (hc : cleanNode ds = true)
+    (htmo : ds.tmo = none) (hch : ∀ j c, cs.get? j = some c → ChildOk c) (ops : List Op) (hcf : ops.all cfOp = true)
+    (r : Bool × Nat) (hr : eval (.node ds cs) = some r) :
+    (∃ pfx, pfx <+: visit (.node ds cs) ∧ trOf (run (.node ds cs) {} (.calls [.start] :: ops)).2.log = pfx.map Sum.inl) ∨
+    trOf (run (.node ds cs) {} (.calls [.start] :: ops)).2.log = (visit (.node ds cs)).map Sum.inl ++ [Sum.inr r] :=
+  seq_over_par_leaves ds cs m hk hc htmo hch ops hcf r hr
+
+/-- the same below a WrapperAction (all four modes) and a CompositeAction -/
+theorem C17_result_matches_doc_wrapper_over_par_leaves (ds : Node) (cs : TL) (m : WrapMode) (hk : ds.kind = .wrapper m)
+    (hc : cleanNode ds = true) (htmo : ds.tmo = none) (hch : ∀ j c, cs.get? j = some c → ChildOk c) (hlen : 1 ≤ cs.length)
+    (ops : List Op) (hcf : ops.all cfOp = true) (r : Bool × Nat) (hr : eval (.node ds cs) = some r) :
+    (∃ pfx, pfx <+: visit (.node ds cs) ∧ trOf (run (.node ds cs) {} (.calls [.start] :: ops)).2.log = pfx.map Sum.inl) ∨
+    trOf (run (.node ds cs) {} (.calls [.start] :: ops)).2.log = (visit (.node ds cs)).map Sum.inl ++ [Sum.inr r] :=
+  wrapper_over_par_leaves ds cs m hk hc htmo hch hlen ops hcf r hr
+
+theorem C17_result_matches_doc_composite_over_par_leaves (ds : Node) (cs : TL) (hk : ds.kind = .composite)
+    (hc : cleanNode ds = true) (htmo : ds.tmo = none) (hch : ∀ j c, cs.get? j = some c → ChildOk c) (hlen : 1 ≤ cs.length)
+    (ops : List Op) (hcf : ops.all cfOp = true) (r : Bool × Nat) (hr : eval (.node ds cs) = some r) :
+    (∃ pfx, pfx <+: visit (.node ds cs) ∧ trOf (run (.node ds cs) {} (.calls [.start] :: ops)).2.log = pfx.map Sum.inl) ∨
+    trOf (run (.node ds cs) {} (.calls [.start] :: ops)).2.log = (visit (.node ds cs)).map Sum.inl ++ [Sum.inr r] :=
+  composite_over_par_leaves ds cs hk hc htmo hch hlen ops hcf r hr
+
+/-- the batch invariant behind it: in every state of the control-free run of a Parallel over leaves whose own notification is not
+queued, the snapshot of a batch contains only notifications of its leaves (`BatchOk`), so one op of the parent is the op of the
+child embedded (`C17_batch_embed`); and the step in which the parallel node finishes ends in `DoneAs (true, 0)` -/
+theorem C17_par_leaves_batch_ok {m : Mode3} {L : List (Nat ⊕ (Bool × Nat))} {fns : List Nat} {t0 M : Nat} {d : Node} {l : List Node} {g : G}
+    (h : PI m L fns t0 M d l g) (ht : d.tasks = []) :
+    ∀ ms, BatchOk (.node d (ofList l)) { g with now := g.now + ms } (batchOf (.node d (ofList l))) :=
+  par_leaves_batchOk h ht
+
+theorem C17_par_leaves_done_as {m : Mode3} {L : List (Nat ⊕ (Bool × Nat))} {fns : List Nat} {t0 M : Nat} {d : Node} {l : List Node} {g : G}
+    (h : PI m L fns t0 M d l g) (hst : d.st = .running) (op : Op) (hop : cfOp op = true)
+    (hfin : (step (.node d (ofList l)) g op).1.data.st = .finished) :
+    DoneAs (step (.node d (ofList l)) g op).1 (true, 0) :=
+  par_leaves_doneAs h hst op hop hfin
+
+/-- non-vacuity: Sequence[ f, Parallel(all)[ f, sleep 5, f ], f ] satisfies the hypotheses and runs as documented -/
+example : (∀ j c, exSeqPar.children.get? j = some c → ChildOk c) ∧ eval exSeqPar = some (true, 2) ∧ visit exSeqPar = [2, 4, 6, 7] :=
+  ⟨exSeqPar_covered, exSeqPar_run.1, exSeqPar_run.2.1⟩
 
 /-! ### OPEN (stated, not proved; carried by the executable model + correspondence + monitors)
 
